@@ -71,7 +71,9 @@ func (c *PContacts) Reset() {
 }
 
 // Init initializes the contact values from an array of parsed values.
+// It also resets the object (like PPAIs.Init() or PSIPMsg.Init()).
 func (c *PContacts) Init(valbuf []PFromBody) {
+	c.Reset()
 	c.Vals = valbuf
 }
 
